@@ -10,7 +10,7 @@ THEOREMS = [
     "BSVerif.Props.C20.throwing_dtor_terminates",
     "BSVerif.Props.C20.first_deferred_error_is_kept",
     "BSVerif.Props.C20.dtors_cannot_let_exceptions_escape",
-    "BSVerif.Props.C20.deferring_dtors_are_the_three_scopes",
+    "BSVerif.Props.C20.deferring_dtors_are_the_four_scopes",
     "BSVerif.Props.C20.dtor_inventory",
     "BSVerif.Props.C20.csv_deferred_save_eq",
 ]
@@ -35,8 +35,10 @@ def nontrivial(op, impl):
 def gen(tier, rng, boost=1):
     ops = []
     q = tier == "quick"
-    for arch, n in (("mp", 140), ("mpvec", 20), ("mpx", 178), ("mptup", 66), ("csv", 420), ("json", 260), ("xml", 420)):
-        ks = range(0, n) if not q else sorted(set(list(range(0, min(n, 60))) + rng.sample(range(n), min(n, 40)) +
+    # mpbin: byte containers (`bin` values read through CMsgPackReadBinaryScope; every length, also in the quick tier: a cut
+    # inside a payload is noticed by ReadBinary() and, while that exception unwinds, again by the scope's destructor)
+    for arch, n in (("mp", 140), ("mpvec", 20), ("mpx", 178), ("mptup", 66), ("mpbin", 380), ("csv", 420), ("json", 260), ("xml", 420)):
+        ks = range(0, n) if (not q or arch == "mpbin") else sorted(set(list(range(0, min(n, 60))) + rng.sample(range(n), min(n, 40)) +
                                                     (list(range(max(0, n - 66), n)) if arch in ("mpx", "mptup") else [])))
         for k in ks:
             for src in ("mem", "stream"):
